@@ -33,6 +33,12 @@ THEOREMS = [
     "Verif.C16.inference_exact_of_posModel",
     "Verif.C16.update_normalised_of_posModel",
     "Verif.C16.hypotheses_needed",
+    "Verif.C16.em_monotone",
+    "Verif.C16.em_monotone_of_pos",
+    "Verif.C16.em_monotone_general",
+    "Verif.C16.em_link",
+    "Verif.C16.em_monotone_tables",
+    "Verif.C16.emTables_mono",
 ]
 RULE = (
     "corpus (zero-probability initial states/transitions, the all-impossible model, constant paths, single runs) + "
@@ -101,8 +107,15 @@ ASSUMPTIONS = [
     "precision above 1e12 (variance collapse onto identical observations, frequent in integer traces: the Gaussian is "
     "singular, the likelihood unbounded and its computed value rounding noise; "
     "corpus/C16/em_variance_collapse_identical_counts.json); such runs are counted",
-    "em_monotone (DESIGN ext) is NOT a theorem: the likelihood ascent of Baum-Welch is explored only (oracle on the "
-    "implementation's log-likelihood sequence)",
+    "em_monotone is a theorem over the reals about likelihood and posteriors DEFINED as sums over all paths and the re-estimation "
+    "formulas of ClassicHmm.update applied to them; em_link proves that the rational model's forward-backward run computes exactly "
+    "these posteriors for every rational emission table, and em_monotone_tables / emTables_mono is the ascent for the executable "
+    "model with the emission table kept.  What is not formal: a Gaussian emission table is real-valued, the executable model "
+    "takes rational tables (the doubles the harness computes), so the Gaussian M-step is joined to the executable E-step through "
+    "em_link's rational instance only; hypotheses: totals of pi and of the rows of A at most one (exact after one exact update, "
+    "doubles are normalised up to rounding), no re-estimated variance zero (proved for strictly positive pi, A on non-constant "
+    "data: em_monotone_of_pos)",
+    "the implementation's log-likelihood sequence itself is still observed on every run (oracle), as before",
     "state labels handed to dwell extraction are integers",
 ]
 
@@ -733,7 +746,20 @@ def n_ops(case):
         return len(case["steps"])
     if case["op"] == "em":
         return 2 if len(case["data"]) <= FB_MODEL_T else 1
+    if case["op"] == "fb":
+        return 2 if emtab_applies(case) else 1
     return 2 if case["op"] == "dwell" else 1
+
+
+EMTAB_LIMIT = 243  # K^T up to which the two sides of em_monotone_tables (sums over ALL paths) are also run by the Lean model
+
+
+def emtab_applies(case):
+    """forward-backward cases whose re-estimated pi, A (emissions kept) are ALSO evaluated: exact likelihood before and after, by
+    the Lean model as sums over all K^T paths (theorem em_monotone_tables / emTables_mono), by the code as forward_backward of the
+    model that holds the updated pi, A and the old means and precisions"""
+    T = len(case["data"])
+    return 2 <= T and case["K"] ** T <= EMTAB_LIMIT and not case.get("expect_degenerate")
 
 
 CHAIN_T = 64  # traces up to this length: the Baum-Welch iterations are ALSO observed one by one through the public constructor
@@ -798,7 +824,20 @@ def _impl(case):
         hm = HMM(obs_array(case), K, tol=0.0, max_iter=1, initial_guess=stub_hmm(classic(case), K))
         out["pub1"] = public_params(hm)
         out["pub1"]["var"] = shown(hm)[3]
-        return [json.dumps(out)]
+        if n_ops(case) == 1:
+            return [json.dumps(out)]
+        # the model with the re-estimated pi, A and the OLD emissions, through the anchored forward pass
+        emt = "?"
+        try:
+            if out["pi2"] != "?":
+                hyb = hmm_params(K, case["mu"], case["tau"], unfl(out["pi2"]), [unfl(r) for r in out["A2"]])
+                with np.errstate(all="ignore"):
+                    c1 = np.asarray(anchored(algo(ANCHOR_ALGOS[0]), data, hyb, returns=4)[2], dtype=float)
+                    emt = json.dumps({"ll0": out["ll"], "s0": enc_float(float(np.sum(np.abs(np.log(unfl(out["c"])))))),
+                                      "ll1": enc_float(float(np.sum(np.log(c1)))), "s1": enc_float(float(np.sum(np.abs(np.log(c1)))))})
+        except Unreachable:
+            pass
+        return [json.dumps(out), emt]
     if k == "em":
         K = case["K"]
         model = classic(case)
@@ -923,8 +962,11 @@ def ops(case):
     if k == "fb":
         K = case["K"]
         B = [[math.exp(gauss_logpdf(x, case["mu"][j], case["tau"][j])) for j in range(K)] for x in case["data"]]
-        return [f"c16.fb {K} {enc_list(case['pi'], enc_rat)} {enc_listlist(square(case), enc_rat)} "
-                f"{enc_listlist(B, enc_rat)} {enc_list(case['data'], enc_rat)}"]
+        out = [f"c16.fb {K} {enc_list(case['pi'], enc_rat)} {enc_listlist(square(case), enc_rat)} "
+               f"{enc_listlist(B, enc_rat)} {enc_list(case['data'], enc_rat)}"]
+        if n_ops(case) == 2:
+            out.append(f"c16.emtab {K} {enc_list(case['pi'], enc_rat)} {enc_listlist(square(case), enc_rat)} {enc_listlist(B, enc_rat)}")
+        return out
     if k == "em":
         ia = _impl_of(case)[0]
         if is_err(ia):
@@ -1080,6 +1122,40 @@ def fb_agree(case, ia, ma):
     return True
 
 
+def emtab_agree(case, ia, ma):
+    """c16.emtab: `L L' (L<=L') hyp` of the Lean model (both likelihoods as sums over ALL paths; hyp = the hypotheses of
+    em_monotone_tables hold for the exact inputs) against the code: log-likelihood of the model and of the model holding the
+    pi, A that ClassicHmm.update returned with the old emissions."""
+    if ia == "?":
+        return True
+    if is_err(ia) or is_err(ma):
+        return ia == ma
+    toks = ma.split(" ")
+    if len(toks) != 4:
+        return False
+    def frac(t):
+        p, q = t.split("/")
+        return Fraction(int(p), int(q))
+
+    def flog(v):  # logarithm of a positive Fraction without going through a double that could underflow
+        return math.log(v.numerator) - math.log(v.denominator)
+
+    L0, L1, mono, hyp = frac(toks[0]), frac(toks[1]), toks[2], toks[3]
+    if hyp == "T" and mono != "T":
+        return False  # the executed model contradicts emTables_mono
+    d = json.loads(ia)
+    ll0, ll1, s0, s1 = (dec_float(d[f]) for f in ("ll0", "ll1", "s0", "s1"))
+    if L0 <= 0 or not math.isfinite(ll0):
+        return True  # observations impossible under the model: nothing the clause speaks about
+    if not fclose(ll0, flog(L0), 1.0 + s0):
+        return False
+    if not math.isfinite(ll1) or L1 <= 0:
+        return True  # a state without occupancy before the last sample: its row of A' is 0/0 in the code (excluded, see ASSUMPTIONS)
+    if not fclose(ll1, flog(L1), 1.0 + s1):
+        return False
+    return hyp != "T" or ll1 >= ll0 - TOL * (1.0 + s0 + s1)
+
+
 def em_ll_agree(ia, ma):
     """fit_info.log_likelihood of the trained model against log prod c_t of the exact model run on the trained parameters"""
     if is_err(ia) or is_err(ma):
@@ -1108,7 +1184,7 @@ def agree(case, i, ia, ma):
             return True
         return vit_agree(ia, ma) if i == 0 else em_ll_agree(ia, ma)
     if k == "fb":
-        return fb_agree(case, ia, ma)
+        return fb_agree(case, ia, ma) if i == 0 else emtab_agree(case, ia, ma)
     if ia == "?":  # an observation the harness could not make (private tie not reachable): nothing to compare
         return True
     return ia == ma
@@ -1976,6 +2052,34 @@ def positivity_coverage(results):
     return out
 
 
+def emtab_coverage(results):
+    """branches of em_monotone_tables / emTables_mono hit by the c16.emtab runs (both sides as sums over ALL paths)"""
+    out = {"runs": 0, "hypotheses_hold": 0, "hypotheses_fail_rounding_or_impossible_data": 0, "likelihood_strictly_up": 0,
+           "likelihood_equal": 0, "likelihood_down_without_hypotheses": 0, "code_side_observed": 0,
+           "code_side_new_row_0/0_not_compared": 0, "models_with_zero_probabilities": 0}
+    for r in results:
+        c = r["case"]
+        if c["op"] != "fb" or len(r["model"]) != 2:
+            continue
+        toks = r["model"][1].split(" ")
+        if len(toks) != 4:
+            continue
+        out["runs"] += 1
+        out["hypotheses_hold" if toks[3] == "T" else "hypotheses_fail_rounding_or_impossible_data"] += 1
+        out["models_with_zero_probabilities"] += any(v == 0 for v in c["pi"]) or any(v == 0 for row in square(c) for v in row)
+        if toks[0] == toks[1]:
+            out["likelihood_equal"] += 1
+        elif toks[2] == "T":
+            out["likelihood_strictly_up"] += 1
+        else:
+            out["likelihood_down_without_hypotheses"] += 1
+        a = r["impl"][1]
+        if a != "?" and not is_err(a):
+            out["code_side_observed"] += 1
+            out["code_side_new_row_0/0_not_compared"] += not math.isfinite(dec_float(json.loads(a)["ll1"]))
+    return out
+
+
 def extra_coverage(results):
     unobserved = {}  # observations the harness could not make because a private tie was not reachable ("?")
     for r in results:
@@ -1995,6 +2099,7 @@ def extra_coverage(results):
     }
     out = _extra_coverage(results)
     out["positivity_theorems_on_executed_runs"] = positivity_coverage(results)
+    out["em_monotone_tables_on_executed_runs"] = emtab_coverage(results)
     out.update({"private_ties": private_ties(), "observations_not_made_private_tie_unreachable": dict(sorted(unobserved.items())),
                 "public_twins": public_twin})
     return out
